@@ -146,7 +146,7 @@ class PassPlugin:
         arr = eng.field(s, 'Task', fld); fs = eng.fsort('Task', fld); src = xs.e
         if g.ifs:
             if len(g.ifs) != 1 or ast.unparse(g.ifs[0]) != f'{var}.{attr} is not None' or fs != OT: raise Unsupported('comprehension filter form')
-            C = fresh('comp', LTm); srci = Function(f'src!{next(itertools_count)}', IntSort(), IntSort()); posi = Function(f'pos!{next(itertools_count)}', IntSort(), IntSort()); j = Int('j')
+            C = fresh('comp', LTm); srci = Function(f'src!{fresh_id()}', IntSort(), IntSort()); posi = Function(f'pos!{fresh_id()}', IntSort(), IntSort()); j = Int('j')
             s.assume(LTm.len(C) >= 0)
             s.assume(ForAll([j], Implies(And(0 <= j, j < LTm.len(C)), And(0 <= srci(j), srci(j) < ln(src), some(arr[at(src, srci(j))]), tv(arr[at(src, srci(j))]) == LTm.at(C, j))), patterns=[LTm.at(C, j)]))
             s.assume(ForAll([j], Implies(And(0 <= j, j < ln(src), some(arr[at(src, j)])), And(0 <= posi(j), posi(j) < LTm.len(C), LTm.at(C, posi(j)) == tv(arr[at(src, j)]))), patterns=[at(src, j)]))
